@@ -135,4 +135,27 @@ CHECKS = {
             "bytes the client wrote before closing a connection are still delivered to the server (as TCP does), so a re-sent command can overtake its original",
         ],
     },
+    "C05": {
+        "level": "exploration",
+        "rule": ("plans: 3-7 tasks whose calls carry deadlines of 50 ms..8 s, manual cancellations at seeded steps, or an already-done context, while "
+                 "connections are stalled for 60-120 s (both directions or replies only): waits in the pipeline (ring kept from filling, flow buffer "
+                 "any size), on the synchronous path, for a blocking-pool connection (pool of 1-2 held by BLPOPs of 100-200 s; the scheduler may park "
+                 "a waiter between its wait-condition check and cond.Wait while the context ends), on another caller's cache flight, and in retry "
+                 "back-off (RetryDelay up to 30 s after a reset); oracle: a call returns within 3 s of fake time of its deadline/cancellation "
+                 "(Dialer.Timeout is set to 1 s), and nothing of a call with an already-done context reaches the server; "
+                 "non-trivial = a stall fired and at least one call with a deadline or cancellation was judged; distinct = distinct event-log hash"),
+        "parts": [
+            {"module": "rueidis", "scenario": "deadlines", "quick": 3000, "thorough": 200000},
+            {"module": "rueidis", "scenario": "deadlines", "variant": "pool", "quick": 1500, "thorough": 100000},
+            {"module": "rueidis", "scenario": "deadlines", "variant": "cache", "quick": 1000, "thorough": 100000},
+            {"module": "rueidis", "scenario": "deadlines", "variant": "retry", "quick": 1000, "thorough": 100000},
+            {"module": "rueidis", "scenario": "deadlines", "variant": "pipeline", "quick": 1000, "thorough": 100000},
+        ],
+        "expected_probes": ["stall-fired", "call-ended-by-its-deadline", "call-ended-by-its-cancellation"],
+        "components": {"real": REAL, "stubs": STUBS},
+        "assumptions": [
+            "'shortly after' is taken as 3 s of fake time, with Dialer.Timeout = 1 s set by the scenario (a caller may wait for another caller's dial, which ignores its context) and the 1 s close grace of an aborted blocking connection",
+            "ring-full waits are excluded for the ring queue (documented: the ring cannot cancel a wait for a slot); the flow buffer is exercised at every size",
+        ],
+    },
 }
